@@ -31,6 +31,19 @@ CLAIMS = {
                   "little-endian byte addressing of the []uint64 bit set.",
         technique="Coq proof (bit-level lemmas, induction over positions) + model/code correspondence",
         ref="8 C19"),
+    "C20": dict(
+        text="The amd64 kernel is TRANSLATED from z/simd/search_amd64.s on every run (gen/asm2coq.py -> Gen/SearchAsm.v) into "
+             "an instruction list over a 15-instruction x86-64 semantics (Simd/X86.v); Properties/C20.v proves, for the "
+             "generated program, every slice whose length is a non-zero multiple of 8 (< 2^16, int16 result), every k, every "
+             "base address and every content of the memory after the slice: termination with first_ge and all reads inside "
+             "the slice (symbolic execution, induction over 8-word blocks); plus Naive = portable Search = first_ge for all "
+             "lengths, and the exported guarded Search = first_ge for every length, independent of trailing memory. The "
+             "correspondence runs real Search/Naive/Clever on slices embedded in adversarial backing arrays against the "
+             "extracted interpreter.",
+        note=TB + "the translator and the instruction semantics are validated (not verified) by the correspondence, which "
+                  "reproduced the real kernel's over-read before the fix; lengths >= 2^16 excluded (int16 result).",
+        technique="translator-regenerated model + Coq proof by symbolic execution/induction + differential run",
+        ref="8 C20"),
 }
 
 TODO_REASON = "not yet covered in this build round: model/theorems under construction (see DESIGN.md section 11); no check is registered rather than a weaker technique"
